@@ -620,7 +620,24 @@ func (h *c01Hist) topo() modeling.Topology {
 // signed / zero / unusual extents: primitives must not write through package-level tables or earlier instances
 // whatever their parameters are (mirrored, degenerate, tiny, large)
 func (h *c01Hist) ext() float64 {
+	if h.c.Rng.Intn(2) == 0 {
+		return []float64{0.5, 1}[h.c.Rng.Intn(2)] // the defaults: so that two constructions often share EXACT parameters (caches keyed by them)
+	}
 	return []float64{-3, -2, -1, -0.5, 0, 0.25, 1, 1, 2, 3, 1e-9, 1e6}[h.c.Rng.Intn(12)]
+}
+
+// transform arguments where fast paths sit: exactly uniform scales, identity, zero, axis-aligned, mirrored — and general ones
+func (h *c01Hist) scaleArg() vector3.Float64 {
+	return []vector3.Float64{vector3.New(2., 2., 2.), vector3.New(0.5, 0.5, 0.5), vector3.New(-1., -1., -1.), vector3.New(1., 1., 1.),
+		vector3.New(0., 0., 0.), vector3.New(3., 3., 3.), vector3.New(2., 2., 0.5), vector3.New(1., -1., 1.), vector3.New(1., 1., 4.)}[h.c.Rng.Intn(9)]
+}
+func (h *c01Hist) translateArg() vector3.Float64 {
+	return []vector3.Float64{vector3.New(0., 0., 0.), vector3.New(1., 0., 0.), vector3.New(0., -2., 0.), vector3.New(1., 2., 3.), vector3.New(5., 5., 5.)}[h.c.Rng.Intn(5)]
+}
+func (h *c01Hist) rotateArg() quaternion.Quaternion {
+	return []quaternion.Quaternion{quaternion.Identity(), quaternion.FromTheta(0, vector3.Up[float64]()), quaternion.FromTheta(math.Pi, vector3.Up[float64]()),
+		quaternion.FromTheta(math.Pi/2, vector3.Right[float64]()), quaternion.FromTheta(1.25, vector3.Up[float64]()),
+		quaternion.FromTheta(0.3, vector3.New(1., 1., 1.).Normalized())}[h.c.Rng.Intn(6)]
 }
 
 func (h *c01Hist) pts3(n int) []vector3.Float64 {
@@ -723,6 +740,23 @@ var c01Builders = []c01Builder{
 		return repeat.Mesh(primitives.UnitCube(), repeat.FibonacciSphere(1+h.c.Rng.Intn(4), h.ext()))
 	}},
 	{"empty", func(h *c01Hist) modeling.Mesh { return modeling.EmptyMesh(h.topo()) }},
+	// node defaults, ONE parameter varying: repeated constructions share exact keys (sides, radius, …) while earlier instances are live
+	{"cone.default", func(h *c01Hist) modeling.Mesh {
+		return primitives.Cone{Height: h.ext(), Radius: 0.5, Sides: 3}.ToMesh()
+	}},
+	{"cylinder.default", func(h *c01Hist) modeling.Mesh {
+		return primitives.Cylinder{Sides: 16, Height: h.ext(), Radius: 0.5}.ToMesh()
+	}},
+	{"circle.default", func(h *c01Hist) modeling.Mesh { return primitives.Circle{Sides: 12, Radius: 0.5}.ToMesh() }},
+	{"uvsphere.default", func(h *c01Hist) modeling.Mesh { return primitives.UVSphere(0.5, 3, 4) }},
+	{"hemisphere.default", func(h *c01Hist) modeling.Mesh {
+		return primitives.Hemisphere{Radius: 0.5, Capped: h.c.Rng.Intn(2) == 0}.UV(3, 4)
+	}},
+	{"quad.default", func(h *c01Hist) modeling.Mesh { return primitives.Quad{Width: 1, Depth: 1}.ToMesh() }},
+	{"cube.default", func(h *c01Hist) modeling.Mesh { return primitives.Cube{Height: h.ext(), Width: 1, Depth: 1}.Welded() }},
+	{"extrude.circle.default", func(h *c01Hist) modeling.Mesh {
+		return extrude.Circle{Resolution: 6, Radius: 0.5, Path: []vector3.Float64{vector3.Zero[float64](), vector3.New(0., h.ext(), 0.)}}.Extrude()
+	}},
 	{"splatcloud", func(h *c01Hist) modeling.Mesh {
 		n := 1 + h.c.Rng.Intn(5)
 		rot := make([]vector4.Float64, n)
@@ -1152,16 +1186,17 @@ func (h *c01Hist) apply(name string) (res []c01Result, ok bool) {
 			a = h.pick() // possibly no position: must panic without touching anything
 		}
 		m := h.pool[a]
+		sa, ta, ra := h.scaleArg(), h.translateArg(), h.rotateArg()
 		f := func() modeling.Mesh {
 			switch name {
 			case "translate":
-				return m.Translate(vector3.New(1., 2., 3.))
+				return m.Translate(ta)
 			case "scale":
-				return m.Scale(vector3.New(2., 2., 0.5))
+				return m.Scale(sa)
 			case "rotate":
-				return m.Rotate(quaternion.FromTheta(1.25, vector3.Up[float64]()))
+				return m.Rotate(ra)
 			}
-			return m.ApplyTRS(trs.New(vector3.New(1., 0., 0.), quaternion.FromTheta(0.5, vector3.Right[float64]()), vector3.New(1., 2., 3.)))
+			return m.ApplyTRS(trs.New(ta, ra, sa))
 		}
 		return re(f, fmt.Sprintf("setattr 2 %s %d 0", modeling.PositionAttribute, c01LenOf(m, 2, modeling.PositionAttribute)), a), true
 	case "copyattr":
@@ -1321,11 +1356,11 @@ func (h *c01Hist) apply(name string) (res []c01Result, ok bool) {
 		case "normalize":
 			out = meshops.NormalizeAttribute3D(m, at)
 		case "meshops.translate":
-			out = m.Transform(meshops.TranslateAttribute3DTransformer{Attribute: at, Amount: vector3.New(1., 1., 1.)})
+			out = m.Transform(meshops.TranslateAttribute3DTransformer{Attribute: at, Amount: h.translateArg()})
 		case "meshops.scale":
-			out = meshops.ScaleAttribute3D(m, at, vector3.Zero[float64](), vector3.New(2., 3., 4.))
+			out = meshops.ScaleAttribute3D(m, at, h.translateArg(), h.scaleArg())
 		case "meshops.rotate":
-			out = meshops.RotateAttribute3D(m, at, quaternion.FromTheta(0.3, vector3.Forward[float64]()))
+			out = meshops.RotateAttribute3D(m, at, h.rotateArg())
 		default:
 			out = meshops.VertexColorSpace(m, at, meshops.VertexColorSpaceSRGBToLinear)
 		}
@@ -1336,7 +1371,7 @@ func (h *c01Hist) apply(name string) (res []c01Result, ok bool) {
 			return nil, true
 		}
 		m := h.pool[a]
-		out := meshops.ScaleAttributeAlongNormal(m, modeling.PositionAttribute, modeling.NormalAttribute, 0.5)
+		out := meshops.ScaleAttributeAlongNormal(m, modeling.PositionAttribute, modeling.NormalAttribute, []float64{0, 0.5, 1, -1}[rng.Intn(4)])
 		return one(out, fmt.Sprintf("setattr 2 %s %d 0", modeling.PositionAttribute, c01LenOf(m, 2, modeling.PositionAttribute)), a), true
 	case "transform.chain":
 		a := h.pickWhere(func(m modeling.Mesh) bool { return isTri(m) && hasPos(m) })
